@@ -315,6 +315,12 @@ def run(chk: Check):
     from .c09 import rule_k6
     from .. import constfold
     rule_k6(chk, constfold.fold_tokenize(), ix, chk.tier == "thorough")
+    # the sub-languages of the master pattern (what the continuation alternative swallows without a token, which characters
+    # are blanks) and the span of the synthetic raw-capture token
+    from .c09 import rule_k1
+    from .c07 import rule_m1
+    rule_k1(chk, constfold.fold_tokenize(), chk.tier == "thorough")
+    rule_m1(chk, ix)
     chk.floor("L2-accumulation", 10)
     chk.floor("L3-coverage", 15)
     chk.floor("L4-block-structure", 4)
